@@ -21,8 +21,9 @@ IMPORTS = "From Verde Require Import Lib.QList Model.BlockReduce."
 SHARD = 40
 RULE = ("point clouds of 1..60 points (uniform, clustered so that interior blocks stay empty, regular grids given as "
         "2-D arrays, every point its own block, all points in one block) on a dyadic lattice; data of 1..3 components "
-        "with pairwise distinct values; weights absent or one distinct positive array per component (some zero "
-        "weights, never a whole block); reductions numpy mean/median/sum/min/average (weights only with average); "
+        "with pairwise distinct values; weights absent or one array per component whose pattern is chosen independently "
+        "per component from {uniform 1, another uniform constant, varying, varying with zeros (never a whole block)} - all "
+        "16 combinations for 2 components and 8 for 3 are also fixed edge cases; reductions numpy mean/median/sum/min/average (weights only with average); "
         "spacing (scalar or pair, adjust spacing/region) or shape; region given (sometimes larger or smaller than the "
         "cloud) or inferred; center_coordinates, drop_coords on/off; 0..2 extra coordinates. Labels and block centres "
         "come from verde.block_split on the same arguments. About 30 % of the random cases (and fixed edge cases) hold integer values in int64 / int32 / float32 arrays - data, weights, extra and sometimes the horizontal coordinates - "
@@ -248,7 +249,8 @@ def make_case(vd, red, coords, data, weights, kw, kind, expect_valid=True):
            "weights": None if weights is None else [np.asarray(w).tolist() for w in weights],
            "labels_from_block_split": labels,
            "dtypes": [str(np.asarray(a).dtype) for a in list(coords) + list(data) + (list(weights) if weights is not None else [])],
-           "layouts": kw.get("_layouts"), "instance_reused": bool(kw.get("_twice"))}
+           "layouts": kw.get("_layouts"), "instance_reused": bool(kw.get("_twice")),
+           "weight_patterns": kw.get("_wpatterns")}
     out = [obs[0]] + ([[a.tolist() for a in obs[1]], [a.tolist() for a in obs[2]]] if obs[0] == "ok" else list(obs[1:-1])) \
         + [{"get_params_unchanged": bool(obs[-1])}]
     return Case(inp, out, term, repro, kind, nontrivial=nontrivial)
@@ -291,6 +293,31 @@ def cast_variant(rnd, n, ncomp, nextra, box, weighted, dt, int_coords, east, nor
                     wv[j] = 0
             weights.append(np.array(wv).astype(dt))
     return hc + extra, data, weights
+
+
+def weight_patterns(rnd, weights, n, piecewise=False):
+    """choose a pattern for every weight component independently: uniform 1, another uniform constant, (piecewise
+    constant,) or the generated varying weights (which carry zeros in 40 % of the cases) - so that a uniform first
+    component meets varying later ones and vice versa; returns (weights, pattern names)"""
+    out, names = [], []
+    for w in weights:
+        ints = w.dtype.kind in "iu" or w.dtype == np.float32
+        levels = [2, 3, 5, 7, 11, 13] if ints else [0.25, 0.5, 2.0, 2.5, 3.0, 7.0]
+        pat = rnd.choice(["ones", "const", "piecewise" if piecewise else "varying", "varying", "varying"])
+        if pat == "ones":
+            w = np.ones(n).astype(w.dtype)
+        elif pat == "const":
+            w = np.full(n, rnd.choice(levels)).astype(w.dtype)
+        elif pat == "piecewise":
+            k = rnd.randint(2, 3)
+            cuts = sorted(rnd.sample(range(1, n), min(k - 1, n - 1))) if n > 1 else []
+            lv = rnd.sample(levels, k)
+            w = np.array([lv[sum(j >= c for c in cuts)] for j in range(n)]).astype(w.dtype)
+        else:
+            pat = "varying+zeros" if (np.asarray(w) == 0).any() else "varying"
+        out.append(w)
+        names.append(pat)
+    return out, names
 
 
 def random_config(rnd, vd, i, weighted, kind=None):
@@ -342,6 +369,10 @@ def random_config(rnd, vd, i, weighted, kind=None):
                     for j in rnd.sample(range(n), max(1, n // 8)):
                         wv[j] = 0.0
                 weights.append(np.array(wv))
+    if weights is not None:
+        # every component gets its own pattern: the weighted reduction of a component must use that component's
+        # weights whatever the other components' weights look like
+        weights, kw["_wpatterns"] = weight_patterns(rnd, weights, n)
     # blocks: spacing or shape
     if rnd.random() < 0.55:
         sp = rnd.choice([1.5, 2, 2.5, 3, 4, (2, 3), (3, 1.5), (2.5, 2.5), 20])
@@ -452,6 +483,27 @@ def edge_cases(rnd, vd):
             arrs = [e2 + 0.0, n2 + 0.0, (d2 * 3).astype(dt), d2.astype(dt), (d2 * d2).astype(dt)]
             arrs = [apply_layout(a, t) for a, t in zip(arrs, tags)]
             out.append((red, arrs[:3], arrs[3:], None, kw))
+    # every combination of per-component weight patterns (uniform 1, another uniform constant, varying, varying with
+    # zeros) for 2 components and a selection for 3, on blocks of 2, 3, 1, 2, 1, 4 members: each component must be
+    # averaged with its own weights, whatever the first (or any other) component's weights look like
+    e5 = A([0.25, 0.5, 1.25, 1.5, 1.75, 2.5, 0.25, 0.75, 1.5, 2.25, 2.5, 2.75, 2.875])
+    n5 = A([0.5, 0.5, 0.5, 0.5, 0.5, 0.5, 1.5, 1.5, 1.5, 1.5, 1.5, 1.5, 1.5])
+    dd = [A([0.0, 2.0, 0.0, 3.0, 6.0, 5.0, 1.5, -1.0, 7.0, 1.0, 2.0, 4.0, 8.0]),
+          A([1.0, 5.0, 2.0, 3.0, 7.0, -5.0, 0.25, -0.75, 0.5, 10.0, 20.0, 40.0, 80.0]),
+          A([9.0, -3.0, 4.5, 6.0, 0.0, 9.0, 3.0, 4.0, 0.25, -1.0, -2.0, -4.0, -8.5])]
+    pats = {"ones": np.ones(13), "const": np.full(13, 2.5),
+            "varying": A([1.0, 2.0, 0.5, 3.0, 1.5, 4.0, 0.25, 0.75, 2.5, 1.25, 5.0, 3.5, 2.25]),
+            "zeros": A([0.5, 0.0, 4.0, 1.0, 0.0, 0.125, 3.0, 1.0, 6.0, 0.0, 2.0, 1.0, 0.375])}
+    names = list(pats)
+    combos = [(a, b) for a in names for b in names]
+    combos += [("ones", "varying", "zeros"), ("const", "ones", "varying"), ("varying", "ones", "const"),
+               ("ones", "ones", "varying"), ("const", "const", "zeros"), ("varying", "zeros", "ones"),
+               ("zeros", "varying", "varying"), ("ones", "const", "ones")]
+    for k, combo in enumerate(combos):
+        kw = dict(spacing=1, region=(0, 3, 0, 2), center_coordinates=bool(k % 2), drop_coords=bool(k % 3),
+                  _wpatterns=list(combo))
+        out.append(("RAverage", [e5, n5, dd[2] * 2 + 1], [dd[j] for j in range(len(combo))],
+                    [pats[c].copy() * (1 if c in ("ones", "const") else j + 1) for j, c in enumerate(combo)], kw))
     # one object, two surveys: the instance first filters a cloud with another bounding box (shifted / larger /
     # smaller, by point count) and point count; region=None, so each call must infer its own region
     for npts in (12, 13, 14):
